@@ -192,6 +192,23 @@ Theorem C16_printed_blank_node_partial : forall (U : uni), ascii_ok U -> forall 
 Proof. exact printed_bql_blank_node. Qed.
 Print Assumptions C16_printed_blank_node_partial.
 
+(* the same two on DECODED runes, for any alphabet: ? followed by runes that are letters, digits or '_' according to U;
+   _: followed by a letter and such runes (the widths are those of the UTF-8 encodings) *)
+Theorem C16_printed_binding_runes : forall (U : uni), ascii_ok U -> forall name : list rw,
+  Forall (fun p => (is_letter U (fst p) || is_digit U (fst p) || Z.eqb (fst p) 95)%bool = true) name ->
+  lex_runes U ((63%Z, 1) :: name) =
+  ([(ItemBinding, 0, 1 + wsum name); (ItemEOF, 1 + wsum name, 1 + wsum name)], true).
+Proof. exact printed_binding_runes. Qed.
+Print Assumptions C16_printed_binding_runes.
+
+Theorem C16_printed_blank_node_runes : forall (U : uni), ascii_ok U -> forall (a : Z) (wa : nat) (name : list rw),
+  is_letter U a = true ->
+  Forall (fun p => (is_letter U (fst p) || is_digit U (fst p) || Z.eqb (fst p) 95)%bool = true) name ->
+  lex_runes U ((95%Z, 1) :: (58%Z, 1) :: (a, wa) :: name) =
+  ([(ItemBlankNode, 0, 2 + wa + wsum name); (ItemEOF, 2 + wa + wsum name, 2 + wa + wsum name)], true).
+Proof. exact printed_blank_node_runes. Qed.
+Print Assumptions C16_printed_blank_node_runes.
+
 (* node  /type<id> : type and id any bytes except '<' '>' and backslash (this covers printed blank nodes /_<uuid>) *)
 Theorem C16_printed_node_partial : forall (U : uni), ascii_ok U -> forall ty id,
   Forall (fun b => bz b <> 60%Z /\ bz b <> 62%Z /\ bz b <> 92%Z) ty ->
